@@ -149,11 +149,24 @@ var rawClient = &http.Client{
 // rawHTTP sends a request from the driver. target is the raw request URI (path?query),
 // passed through unmodified.
 func rawHTTP(method, base, target string, headers [][2]string, body []byte) (*rawResp, error) {
+	return rawHTTPx(method, base, target, headers, body, false)
+}
+
+// rawHTTPChunked sends the body without a Content-Length (Transfer-Encoding: chunked).
+func rawHTTPChunked(method, base, target string, headers [][2]string, body []byte) (*rawResp, error) {
+	return rawHTTPx(method, base, target, headers, body, true)
+}
+
+func rawHTTPx(method, base, target string, headers [][2]string, body []byte, chunked bool) (*rawResp, error) {
 	ctx, cancel := context.WithTimeout(context.Background(), 30*time.Second)
 	defer cancel()
 	var rd io.Reader
 	if body != nil {
 		rd = bytes.NewReader(body)
+		if chunked {
+			// a reader of unknown length makes net/http send Transfer-Encoding: chunked
+			rd = io.MultiReader(bytes.NewReader(body), strings.NewReader(""))
+		}
 	}
 	req, err := http.NewRequestWithContext(ctx, method, base+"/", rd)
 	if err != nil {
